@@ -16,6 +16,7 @@ import (
 	"runtime/debug"
 	"sync"
 	"testing"
+	"time"
 
 	"github.com/folbricht/desync"
 	"pgregory.net/rapid"
@@ -568,6 +569,8 @@ var spec = &hx.Spec[Case]{
 		"tar:writer-fails:in-last-100-bytes", "tar:writer-fails:in-root-goodbye", "tar:writer-fails:devfull"},
 	Gen: genCase,
 	Run: run,
+	// a case that never returns is a verdict (confirmed by a replay in a fresh process), not a timeout of the run
+	Watchdog: hx.Pick(120*time.Second, 300*time.Second),
 }
 
 func TestMain(m *testing.M) {
